@@ -20,8 +20,9 @@ package file
 //@   modifies s.Rate, s.Distribution, s.Jitter, s.Parameters
 //@   ensures [usable] result.1 == nil ==> result.0 == s && s.Rate != nil && s.Distribution != nil && s.Jitter != nil && s.Parameters != nil
 //@   ensures [inherit] result.1 == nil ==> s.Rate == (old(s.Rate) != nil ? old(s.Rate) : defaults.Rate) && s.Distribution == (old(s.Distribution) != nil ? old(s.Distribution) : defaults.Distribution)
-//@   ensures [inherit-optional] result.1 == nil ==> (old(s.Jitter) != nil ==> s.Jitter == old(s.Jitter)) && (old(s.Jitter) == nil && defaults.Jitter != nil ==> s.Jitter == defaults.Jitter) &&
-//@           (old(s.Parameters) != nil ==> s.Parameters == old(s.Parameters)) && (old(s.Parameters) == nil && defaults.Parameters != nil ==> s.Parameters == defaults.Parameters)
+//@   ensures [inherit-optional] result.1 == nil ==> (old(s.Jitter) != nil ==> s.Jitter == old(s.Jitter)) && (old(s.Jitter) == nil ==> s.Jitter == defaults.Jitter) &&
+//@           (old(s.Parameters) != nil ==> s.Parameters == old(s.Parameters)) && (old(s.Parameters) == nil && defaults.Parameters != nil ==> s.Parameters == defaults.Parameters) &&
+//@           (old(s.Parameters) == nil && defaults.Parameters == nil ==> fresh(s.Parameters) && (forall k string :: !indom(deref(s.Parameters), k)))
 //@   ensures [rejected] result.1 != nil ==> result.0 == nil
 //@
 //@ func (*Stage).validateRampStage
@@ -31,6 +32,9 @@ package file
 //@   ensures [usable] result.1 == nil ==> result.0 == s && s.StartRate != nil && s.EndRate != nil && s.Distribution != nil && s.Jitter != nil && s.Parameters != nil
 //@   ensures [inherit] result.1 == nil ==> s.StartRate == (old(s.StartRate) != nil ? old(s.StartRate) : defaults.StartRate) && s.EndRate == (old(s.EndRate) != nil ? old(s.EndRate) : defaults.EndRate) &&
 //@           s.Distribution == (old(s.Distribution) != nil ? old(s.Distribution) : defaults.Distribution)
+//@   ensures [inherit-optional] result.1 == nil ==> (old(s.Jitter) != nil ==> s.Jitter == old(s.Jitter)) && (old(s.Jitter) == nil ==> s.Jitter == defaults.Jitter) &&
+//@           (old(s.Parameters) != nil ==> s.Parameters == old(s.Parameters)) && (old(s.Parameters) == nil && defaults.Parameters != nil ==> s.Parameters == defaults.Parameters) &&
+//@           (old(s.Parameters) == nil && defaults.Parameters == nil ==> fresh(s.Parameters) && (forall k string :: !indom(deref(s.Parameters), k)))
 //@   ensures [rejected] result.1 != nil ==> result.0 == nil
 //@
 //@ func (*Stage).validateStagedStage
@@ -41,6 +45,9 @@ package file
 //@   ensures [inherit] result.1 == nil ==> s.Stages == (old(s.Stages) != nil ? old(s.Stages) : defaults.Stages) &&
 //@           s.IterationFrequency == (old(s.IterationFrequency) != nil ? old(s.IterationFrequency) : defaults.IterationFrequency) &&
 //@           s.Distribution == (old(s.Distribution) != nil ? old(s.Distribution) : defaults.Distribution)
+//@   ensures [inherit-optional] result.1 == nil ==> (old(s.Jitter) != nil ==> s.Jitter == old(s.Jitter)) && (old(s.Jitter) == nil ==> s.Jitter == defaults.Jitter) &&
+//@           (old(s.Parameters) != nil ==> s.Parameters == old(s.Parameters)) && (old(s.Parameters) == nil && defaults.Parameters != nil ==> s.Parameters == defaults.Parameters) &&
+//@           (old(s.Parameters) == nil && defaults.Parameters == nil ==> fresh(s.Parameters) && (forall k string :: !indom(deref(s.Parameters), k)))
 //@   ensures [rejected] result.1 != nil ==> result.0 == nil
 //@
 //@ func (*Stage).validateGaussianStage
@@ -54,6 +61,9 @@ package file
 //@           s.Peak == (old(s.Peak) != nil ? old(s.Peak) : defaults.Peak) && s.Weights == (old(s.Weights) != nil ? old(s.Weights) : defaults.Weights) &&
 //@           s.StandardDeviation == (old(s.StandardDeviation) != nil ? old(s.StandardDeviation) : defaults.StandardDeviation) &&
 //@           s.Distribution == (old(s.Distribution) != nil ? old(s.Distribution) : defaults.Distribution)
+//@   ensures [inherit-optional] result.1 == nil ==> (old(s.Jitter) != nil ==> s.Jitter == old(s.Jitter)) && (old(s.Jitter) == nil ==> s.Jitter == defaults.Jitter) &&
+//@           (old(s.Parameters) != nil ==> s.Parameters == old(s.Parameters)) && (old(s.Parameters) == nil && defaults.Parameters != nil ==> s.Parameters == defaults.Parameters) &&
+//@           (old(s.Parameters) == nil && defaults.Parameters == nil ==> fresh(s.Parameters) && (forall k string :: !indom(deref(s.Parameters), k)))
 //@   ensures [rejected] result.1 != nil ==> result.0 == nil
 //@
 //@ func (*Stage).validateUsersStage
@@ -62,6 +72,8 @@ package file
 //@   modifies s.Concurrency, s.Parameters
 //@   ensures [usable] result.1 == nil ==> result.0 == s && s.Concurrency != nil && deref(s.Concurrency) >= 1 && s.Parameters != nil
 //@   ensures [inherit] result.1 == nil ==> s.Concurrency == (old(s.Concurrency) != nil ? old(s.Concurrency) : defaults.Concurrency)
+//@   ensures [inherit-optional] result.1 == nil ==> (old(s.Parameters) != nil ==> s.Parameters == old(s.Parameters)) && (old(s.Parameters) == nil && defaults.Parameters != nil ==> s.Parameters == defaults.Parameters) &&
+//@           (old(s.Parameters) == nil && defaults.Parameters == nil ==> fresh(s.Parameters) && (forall k string :: !indom(deref(s.Parameters), k)))
 //@   ensures [rejected] result.1 != nil ==> result.0 == nil
 //@
 //@ // a runnable stage either drives a fixed set of users (at least one) or ticks at a positive interval with a rate function
@@ -72,6 +84,9 @@ package file
 //@   requires GJclaim == 0
 //@   requires s != nil && s.Mode != nil && s.Duration != nil && defaults.Jitter != nil
 //@   ensures [runnable] result.1 == nil ==> runnableStageOK(result.0) && result.0.StageDuration == old(deref(s.Duration))
+//@   ensures {C15} [params] result.1 == nil ==> result.0.Params == deref(s.Parameters) && (old(s.Parameters) != nil ==> s.Parameters == old(s.Parameters)) &&
+//@           (old(s.Parameters) == nil && defaults.Parameters != nil ==> s.Parameters == defaults.Parameters) && (old(s.Parameters) == nil && defaults.Parameters == nil ==> (forall k string :: !indom(result.0.Params, k)))
+//@   ensures {C15} [users] result.1 == nil && old(deref(s.Mode)) == "users" ==> result.0.UsersConcurrency == deref(s.Concurrency) && (old(s.Concurrency) != nil ==> s.Concurrency == old(s.Concurrency)) && (old(s.Concurrency) == nil ==> s.Concurrency == defaults.Concurrency)
 //@   ensures [rejected] result.1 != nil ==> result.0 == nil
 //@   modifies s.Rate, s.StartRate, s.EndRate, s.Distribution, s.Weights, s.Stages, s.Concurrency, s.Jitter, s.Volume, s.IterationFrequency, s.Repeat, s.Peak, s.StandardDeviation, s.Parameters
 //@
@@ -88,10 +103,36 @@ package file
 //@
 //@ pred stageValueOK(r runnableStage) = (r.UsersConcurrency == 0 ==> (r.IterationDuration > 0 && r.Rate != nil)) && r.UsersConcurrency >= 0
 //@
+//@ // ---- C15: the plan keeps exactly the unfinished stages, in file order. Ghost: G15cum = prefix sums of the stage
+//@ // durations (after defaults), G15pos[i] = position of input stage i in the plan (-1: skipped), G15src = its inverse.
+//@ ghost var G15cum map[int]int
+//@ ghost var G15pos map[int]int
+//@ ghost var G15src map[int]int
+//@ pred keepCond(c *ConfigFile, now time.Time, i int) = c.Schedule.StageStart == nil || deref(c.Schedule.StageStart) + G15cum[i + 1] > now
+//@
 //@ func ParseConfigFile
 //@   props C14 C15
 //@   requires GJclaim == 0
-//@   loop 0 invariant -1 <= rangeindex && (forall j int :: 0 <= j && j < len(stages) ==> stageValueOK(stages[j]))
+//@   ghost at entry : G15cum[0] = 0
+//@   ghost after call validateCommonFieldsOfStage : G15cum[idx + 1] = G15cum[idx] + deref(ret0.Duration) ; G15pos[idx] = -1
+//@   ghost before call parseStage : G15pos[idx] = len(stages) ; G15src[len(stages)] = idx
+//@   loop 0 invariant -1 <= rangeindex && rangeindex < len(validatedConfigFile.Stages) && (forall j int :: 0 <= j && j < len(stages) ==> stageValueOK(stages[j]))
 //@   loop 0 invariant validatedConfigFile != nil && validatedConfigFile.Default.Jitter != nil
+//@   loop 0 invariant {C15} [cum] G15cum[0] == 0 && stagesTotalDuration == G15cum[rangeindex + 1]
+//@   loop 0 invariant {C15} [kept-iff] forall i int :: 0 <= i && i <= rangeindex ==> ((G15pos[i] >= 0) <==> keepCond(validatedConfigFile, now, i))
+//@   loop 0 invariant {C15} [pos-src] forall i int :: 0 <= i && i <= rangeindex && G15pos[i] >= 0 ==> G15pos[i] < len(stages) && G15src[G15pos[i]] == i
+//@   loop 0 invariant {C15} [src-pos] forall a int :: 0 <= a && a < len(stages) ==> 0 <= G15src[a] && G15src[a] <= rangeindex && G15pos[G15src[a]] == a
+//@   loop 0 invariant {C15} [sorted] forall a int, b int :: 0 <= a && a < b && b < len(stages) ==> G15src[a] < G15src[b]
+//@   loop 0 invariant {C15} [duration] forall a int :: 0 <= a && a < len(stages) ==> stages[a].StageDuration == G15cum[G15src[a] + 1] - G15cum[G15src[a]]
 //@   ensures [runnable] result.1 == nil ==> result.0 != nil && result.0.Concurrency >= 1 && (forall j int :: 0 <= j && j < len(result.0.Stages) ==> stageValueOK(result.0.Stages[j]))
 //@   ensures [rejected] result.1 != nil ==> result.0 == nil
+//@   ensures {C15} [only-unfinished] result.1 == nil ==> (forall a int :: 0 <= a && a < len(result.0.Stages) ==> 0 <= G15src[a] && G15src[a] < len(validatedConfigFile.Stages) &&
+//@           keepCond(validatedConfigFile, now, G15src[a]) && result.0.Stages[a].StageDuration == G15cum[G15src[a] + 1] - G15cum[G15src[a]])
+//@   ensures {C15} [in-order] result.1 == nil ==> (forall a int, b int :: 0 <= a && a < b && b < len(result.0.Stages) ==> G15src[a] < G15src[b])
+//@   ensures {C15} [all-unfinished] result.1 == nil ==> (forall i int :: 0 <= i && i < len(validatedConfigFile.Stages) && keepCond(validatedConfigFile, now, i) ==>
+//@           0 <= G15pos[i] && G15pos[i] < len(result.0.Stages) && G15src[G15pos[i]] == i)
+//@   ensures {C15} [total] result.1 == nil ==> result.0.stagesTotalDuration == G15cum[len(validatedConfigFile.Stages)]
+//@   ensures {C15} [limits] result.1 == nil ==> result.0.Scenario == deref(validatedConfigFile.Scenario) && result.0.MaxDuration == deref(validatedConfigFile.Limits.MaxDuration) &&
+//@           result.0.Concurrency == deref(validatedConfigFile.Limits.Concurrency) && result.0.MaxIterations == deref(validatedConfigFile.Limits.MaxIterations) &&
+//@           result.0.maxFailures == deref(validatedConfigFile.Limits.MaxFailures) && result.0.maxFailuresRate == deref(validatedConfigFile.Limits.MaxFailuresRate) &&
+//@           result.0.IgnoreDropped == deref(validatedConfigFile.Limits.IgnoreDropped)
